@@ -42,7 +42,7 @@ PROBES = ['zero-size-array-element', 'deep-nesting', 'unterminated-container', '
           'lying-body-length', 'truncated-then-closed', 'bitflip-survived-as-message',
           'exception-closed-only-that-connection', 'other-peer-call-completed-after-fault',
           'client-pending-calls-failed-on-drop', 'hostile-variant-signature', 'unknown-message-type',
-          'wrong-header-field-type', 'budget-margin-over-10x', 'lying-string-length', 'lying-unix-fds-count', 'large-header-body-dribbled', 'siege-of-hostile-peers']
+          'wrong-header-field-type', 'budget-margin-over-10x', 'lying-string-length', 'lying-unix-fds-count', 'large-header-body-dribbled', 'siege-of-hostile-peers', 'array-of-many-arrays']
 COMPONENTS = {
     'real': ['txdbus.message.parseMessage (counting pass-through wrapper)', 'txdbus.marshal.unmarshal*',
              'txdbus.protocol framing', 'txdbus.bus.Bus / BusProtocol', 'txdbus.client.DBusClientConnection'],
@@ -73,6 +73,27 @@ HOSTILE_SIGS = [
 
 
 HARNESS_DIR = os.path.dirname(os.path.dirname(os.path.abspath(__file__))) + os.sep
+
+
+COPY_FACTOR = 8
+
+
+class CountingBytes(bytes):
+    """bytes whose slices are counted (and count in turn)"""
+
+    @classmethod
+    def of(cls, data, tally):
+        b = cls(data)
+        b.tally = tally
+        return b
+
+    def __getitem__(self, k):
+        r = bytes.__getitem__(self, k)
+        if isinstance(k, slice):
+            self.tally[0] += len(r)
+            r = CountingBytes(r)
+            r.tally = self.tally
+        return r
 
 
 class BudgetExceeded(BaseException):
@@ -148,7 +169,7 @@ def raw_message(mtype, serial, fields, sig, body_bytes, little=True, flags=0, bo
 def mutate(ds, sim, little_serial):
     """-> (kind, bytes to write, close_after)"""
     serial = little_serial
-    kind = ds.weighted([3, 2, 2, 2, 1.5, 5, 1.5, 1, 3, 1.5, 0.6])
+    kind = ds.weighted([3, 2, 2, 2, 1.5, 5, 1.5, 1, 3, 1.5, 0.6, 1])
     base = gen.random_message(ds, serial, mtypes=(1, 4, 2, 3), maxsig=3)
     if rc.F_DESTINATION in base.fields:
         base.fields[rc.F_DESTINATION] = 'org.freedesktop.DBus'
@@ -238,6 +259,24 @@ def mutate(ds, sim, little_serial):
         f = {rc.F_PATH: '/h', rc.F_MEMBER: 'M', rc.F_INTERFACE: 'org.sim.H',
              rc.F_DESTINATION: 'org.freedesktop.DBus'}
         return 'string-length', raw_message(ds.pick([4, 1]), serial, f, sig, body, little), False
+    if kind == 11:
+        # a well-formed message whose body is an array of many small arrays (containers meeting
+        # containers: the work must stay proportional to the bytes)
+        sim.probe('array-of-many-arrays')
+        n = 100 + ds.choose(400)
+        sig = ds.pick(['aay', 'aas', 'a{sas}', 'aai', 'a(ias)'])
+        if sig == 'aay':
+            body = [[[] if i % 3 else [1, 2] for i in range(n)]]
+        elif sig == 'aas':
+            body = [[[] if i % 2 else ['x'] for i in range(n)]]
+        elif sig == 'aai':
+            body = [[[] if i % 2 else [7] for i in range(n)]]
+        elif sig == 'a{sas}':
+            body = [{'k%d' % i: ([] if i % 2 else ['v']) for i in range(n)}]
+        else:
+            body = [[(i, []) for i in range(n)]]
+        f = {rc.F_PATH: '/h', rc.F_MEMBER: 'M', rc.F_INTERFACE: 'org.sim.H'}
+        return 'nested-arrays', rc.Msg(4, serial, f, sig, body, little=not ds.flag(0.3)).encode(), False
     if kind == 10:
         # a well-formed message with a large header (unknown field codes are legal and skipped)
         # whose body then arrives a byte at a time: the work must stay proportional to the
@@ -271,10 +310,19 @@ def scenario(ctx):
     ctx.config.update(victim=victim)
     counter = StepCounter()
     parsed = []
+    copied = [0.0]
     orig_parse = t_message.parseMessage
 
     def counting_parse(raw, fds):
-        m = orig_parse(raw, fds)
+        # the decoder sees the message as a bytes object that counts what is sliced out of it
+        # (and out of its slices): copying is work the step counter does not see
+        tally = [0]
+        m = orig_parse(CountingBytes.of(raw, tally), fds)
+        copied[0] = max(copied[0], tally[0] / float(len(raw) + 1024))
+        if tally[0] > COPY_FACTOR * len(raw) + 4096:
+            raise Violation('C05/allocation', 'copies',
+                            'decoding a message of %d bytes copied %d bytes out of it (slices of slices '
+                            'included)' % (len(raw), tally[0]))
         n = nodes(m.body) if m.body is not None else 0
         parsed.append((len(raw), n))
         if n > NODE_FACTOR * len(raw) + 64:
